@@ -10,7 +10,7 @@ BUDGET = {"quick": 3000, "thorough": 60000}
 LEVEL_TEXT = ("Lean theorem C03_ctx: the server's context automaton equals a block-wise specification of grep "
               "semantics for every line sequence, selection and before/after/max (unbounded), plus C03_filter / "
               "C03_partial for the whole filter with regex flags; tied to the code by a differential run of the real "
-              "reader+filter and the dgrep binary, selection bits supplied by Go's regexp; tie G on internal/regex (Match_spec, see C12); long sparse files with --before up to 1000")
+              "reader+filter and the dgrep binary, selection bits supplied by Go's regexp; tie G on internal/regex (Match_spec, see C12); long sparse files with --before up to 1000; --max alone over hits more than 100 lines apart and over more than 100 hits")
 TRUSTED = ["Lean 4 kernel", "axioms: propext, Quot.sound, Classical.choice (at most)", "fact extractor (noop pattern list, flag names)",
            "overlay harness + dtmodel driver + this diff", "modelled not verified: Go regexp (RE2) matching — an abstract predicate in every theorem"]
 ASSUMPTIONS = ["the regexp engine is a deterministic function of the bytes it is given"]
@@ -84,3 +84,17 @@ def gen(rng, budget, tier):
         content = b"\n".join(lines[:n]) + b"\n"
         B = rng.choice([15, 16, 17, 20, 24, 33, 40, 100, 1000])
         yield f"c03.grep 64 {B} {rng.choice([0, 0, 2])} {rng.choice([0, 0, 3])} {rng.choice([0, 0, 0, 1])} {hexs(b'HIT')} {hexs(content)}"
+    # --max alone (no context) on long files: selected lines more than 100 lines apart (the size of the reader's
+    # statistics window), and more than 100 selected lines
+    for _ in range(40 if tier == "quick" else 2000):
+        n = rng.choice([150, 260, 420])
+        step = rng.choice([60, 101, 120, 140])
+        first = rng.randrange(0, 20)
+        lines = [(b"HIT %d" % i) if i >= first and (i - first) % step == 0 else (b"line %d" % i) for i in range(n)]
+        content = b"\n".join(lines) + b"\n"
+        yield f"c03.grep 64 0 0 {rng.choice([1, 2, 2, 3, 5])} {rng.choice([0, 0, 0, 1]) if n < 200 else 0} {hexs(b'HIT')} {hexs(content)}"
+    for _ in range(6 if tier == "quick" else 300):
+        n = rng.choice([130, 220, 320])
+        lines = [(b"HIT %d" % i) if rng.random() < 0.9 else (b"line %d" % i) for i in range(n)]
+        content = b"\n".join(lines) + b"\n"
+        yield f"c03.grep 64 0 0 {rng.choice([100, 101, 120, 150, 200])} 0 {hexs(b'HIT')} {hexs(content)}"
